@@ -25,7 +25,7 @@ fn dispatch(op: &str, a: &[&str]) -> String {
         "ldro" => ldro::run_op(a),
         "nfd" | "nfd_sweep" => macops::nfd(op, a),
         "regiontables" => macops::region_tables(a),
-        "mc_parse" | "mc_read" | "mc_sweep" | "mc_build" | "mc_seq" | "ident" => maccmd::run_op(op, a),
+        "mc_parse" | "mc_read" | "mc_sweep" | "mc_build" | "mc_seq" | "ident" | "pl_new" => maccmd::run_op(op, a),
         "build_data" | "build_jr" | "build_ja" | "parse_phy" | "parse_data" | "parse_jr" | "ja_decrypt" | "aes" | "cmac" => frame::run_op(op, a),
         _ => format!("UNKNOWN-OP {op}"),
     }
